@@ -415,6 +415,36 @@ fn run(op: &Value) -> Value {
             let rid = ResourceIdentifier::new("ri.a.b.c.d").unwrap();
             json!({"top_uuid": rt(&u), "vec_uuid": rt(&vec![u]), "option_uuid": rt(&Some(u)), "map_uuid_key": rt(&m), "vec_rid": rt(&vec![rid])})
         }
+        "gen_objd" => {
+            // C02 objects: the generated ObjD (required double d, optional double od, list<double> ld) in the three configurations,
+            // read by the client deserializer (unknown keys are the server wrappers' business: C05)
+            let doc = op["doc"].as_str().unwrap();
+            macro_rules! show {
+                ($m:ident) => {{
+                    match conjure_serde::json::client_from_str::<verif_types::$m::p::ObjD>(doc) {
+                        Ok(v) => format!("ok:d=set,od={},ld={}", if v.od().is_some() { "set" } else { "empty" }, if v.ld().is_empty() { "empty" } else { "set" }),
+                        Err(_) => "err".to_string(),
+                    }
+                }};
+            }
+            json!({"default": show!(types), "exhaustive": show!(exhaustive_types), "empty": show!(empty_types)})
+        }
+        "gen_objd_ser" => {
+            let (opt, coll) = (op["opt"].as_bool().unwrap(), op["coll"].as_bool().unwrap());
+            macro_rules! keys {
+                ($m:ident) => {{
+                    let b = verif_types::$m::p::ObjD::builder().d(1.5).od(if opt { Some(2.5) } else { None });
+                    let v = if coll { b.push_ld(3.5).build() } else { b.build() };
+                    let text = conjure_serde::json::to_string(&v).unwrap();
+                    let val: Value = serde_json::from_str(&text).unwrap();
+                    // key order as written
+                    let mut ks: Vec<(usize, String)> = val.as_object().unwrap().keys().map(|k| (text.find(&format!("\"{}\":", k)).unwrap_or(0), k.clone())).collect();
+                    ks.sort();
+                    ks.into_iter().map(|(_, k)| k).collect::<Vec<_>>()
+                }};
+            }
+            json!({"default": keys!(types), "exhaustive": keys!(exhaustive_types), "empty": keys!(empty_types)})
+        }
         "unknown_fields" => {
             #[derive(serde::Deserialize, Debug)]
             #[allow(dead_code)]
